@@ -132,7 +132,8 @@ def mem_cases(draw, nev):
         elif depth:
             row = draw(INT(0, depth - 1))
             if draw(BOOL):
-                evs.append(["poke", row, draw(INT(0, (1 << w) - 1)) if w else 0])
+                # (last element: the value is given as another integer with the same bit pattern - wider or negative)
+                evs.append(["poke", row, draw(INT(0, (1 << w) - 1)) if w else 0, PICK(draw, [0, 0, 1, -1, 3])])
             else:
                 evs.append(["peek", row])
     return {"shape": sh, "depth": depth, "init": init, "wports": wports, "rports": rports, "events": evs,
@@ -254,7 +255,10 @@ def build(case, decoy=False):
         m.d.comb += [dw0.addr.eq(0), dw1.addr.eq(1), keep.eq(dr.data)]
     m.submodules.mem = mem = Memory(shape=sh, depth=case["depth"], init=init)
     wps = [mem.write_port(domain=wp["dom"], granularity=wp["gran"]) for wp in case["wports"]]
-    rps = [mem.read_port(domain=rp["dom"], transparent_for=[wps[j] for j in rp["transparent"]]) for rp in case["rports"]]
+    # (the transparency set is given as a list, a tuple or a one-shot iterator, by position of the port)
+    forms = [list, tuple, iter]
+    rps = [mem.read_port(domain=rp["dom"], transparent_for=forms[k % 3]([wps[j] for j in rp["transparent"]]))
+           for k, rp in enumerate(case["rports"])]
     return m, cds, mem, wps, rps, sh
 
 
@@ -313,8 +317,11 @@ def mem_body(ctx, case):
                 c.set(sigs, 0)
                 if len(doms) > 1: stats["coincident_edges"] = True
             elif ev[0] == "poke":
-                _, r, v = ev
-                c.set(mem.data[r], to_py(case["shape"], sh, v))
+                r, v = ev[1], ev[2]
+                alias = (ev[3] if len(ev) > 3 and case["shape"][0] in ("u", "s") else 0) << w
+                if alias: stats["poke_alias"] = True
+                pv = to_py(case["shape"], sh, v)
+                c.set(mem.data[r], pv + alias if alias else pv)
                 model.rows[r], model.rowx[r] = v, 0
                 model.comb()
                 stats["poke"] = True
@@ -422,7 +429,7 @@ def rtlil_body(ctx, case):
                 c.set(Cat(*[cds[d].clk for d in doms]), 0)
                 rset({f"clk_{d}": 0 for d in doms})
             elif evn[0] == "poke" and mempath is not None:
-                _, r, v = evn
+                r, v = evn[1], evn[2]
                 c.set(mem.data[r], to_py(case["shape"], sh, v))
                 ev.set_mem_row(mempath, r, v)
             mm = compare(c, step, evn)
@@ -459,6 +466,6 @@ REQUIRED = ["mem:shape-u", "mem:shape-s", "mem:shape-array", "mem:shape-struct",
             "mem:unlisted-rows-with-nonzero-class-defaults", "mem:depth0", "mem:depth1", "mem:non-pow2-depth",
             "mem:transparency-set", "mem:fine-granularity", "mem:async-read-port", "mem:collision", "mem:transparent_collision",
             "mem:opaque_collision", "mem:cross_domain_collision", "mem:write_beyond_depth", "mem:read_beyond_depth",
-            "mem:partial_write", "mem:poke", "mem:coincident_edges", "mem:write_write_collision",
+            "mem:partial_write", "mem:poke", "mem:poke_alias", "mem:coincident_edges", "mem:write_write_collision",
             "mem:write-ports-in-two-domains", "rtl:memory", "rtl:transparency-with-several-write-ports", "rtl:collision",
             "rtl:async-read", "rtl:second-memory-in-module"]
